@@ -114,7 +114,60 @@ pub fn par_list(list: &[Grammar], f: &(dyn Fn(&Grammar, &mut Acc) + Sync)) -> Ac
         .reduce(Acc::default, Acc::merge)
 }
 
+pub fn count_list(name: &str, list: &[Grammar]) {
+    let t = std::time::Instant::now();
+    let acc = par_list(list, &|g, acc| {
+        acc.inc("grammars");
+        let r = crate::front::try_front(&g.text(), |fr| {
+            if !fr.has_error() {
+                acc.inc("accepted");
+                if g.fully_productive() {
+                    acc.inc("accepted_productive");
+                }
+            } else {
+                for c in fr.error_codes() {
+                    let c: &'static str = Box::leak(c.into_boxed_str());
+                    acc.inc(c);
+                }
+            }
+        });
+        if r.is_err() {
+            acc.inc("front_end_panic");
+        }
+    });
+    println!("{name}: {:?} in {:.1}s", acc.counters, t.elapsed().as_secs_f64());
+}
+
 pub fn count_families(args: &[String]) {
+    if args.first().is_some_and(|a| a == "special") {
+        use vmodel::families::*;
+        for (b, o) in [(1, 2), (2, 2), (2, 3), (3, 2)] {
+            let mut v = vec![];
+            pratt_family(b, o, &mut |g| v.push(g.clone()));
+            count_list(&format!("pratt({b},{o})"), &v);
+        }
+        for k in [1, 2] {
+            count_list(&format!("node({k})"), &node_family(k, &node_bases()));
+        }
+        count_list("pred(2,1,2;1)", &pred_family(&ebnf_bound(2, 1, 2, false), 1));
+        count_list("pred(2,1,2;2)", &pred_family(&ebnf_bound(2, 1, 2, false), 2));
+        count_list("pred(3,0,2;1)", &pred_family(&ebnf_bound(3, 0, 2, false), 1));
+        count_list("pred(3,1,1;1)", &pred_family(&ebnf_bound(3, 1, 1, false), 1));
+        count_list("choice(3,1,2;1)", &choice_family(&ebnf_bound(3, 1, 2, false), 1));
+        count_list("choice(3,0,2;2)", &choice_family(&ebnf_bound(3, 0, 2, false), 2));
+        count_list("choice(4,0,2;0)", &choice_family(&ebnf_bound(4, 0, 2, false), 0));
+        let two: Vec<Grammar> = choice_family(&ebnf_bound(4, 0, 2, false), 0).into_iter().filter(|g| g.rules.len() == 2).collect();
+        count_list("choice(4,0,2;0) two-rule", &two);
+        count_list("pred(3,1,2;1)", &pred_family(&ebnf_bound(3, 1, 2, false), 1));
+        count_list("pred(3,1,2;2)", &pred_family(&ebnf_bound(3, 1, 2, false), 2));
+        count_list("pred(4,1,2;1)", &pred_family(&ebnf_bound(4, 1, 2, false), 1));
+        count_list("choice(3,0,2;1)", &choice_family(&ebnf_bound(3, 0, 2, false), 1));
+        count_list("choice(4,0,2;1)", &choice_family(&ebnf_bound(4, 0, 2, false), 1));
+        count_list("choice(4,1,2;1)", &choice_family(&ebnf_bound(4, 1, 2, false), 1));
+        count_list("parts(3,1,3)", &parts_family(&ebnf_bound(3, 1, 3, false)));
+        count_list("parts(4,1,3)", &parts_family(&ebnf_bound(4, 1, 3, false)));
+        return;
+    }
     let l: usize = args.first().and_then(|s| s.parse().ok()).unwrap_or(4);
     let u: usize = args.get(1).and_then(|s| s.parse().ok()).unwrap_or(1);
     let r: usize = args.get(2).and_then(|s| s.parse().ok()).unwrap_or(3);
